@@ -17,7 +17,7 @@
    table entries ([loop]) and column *names* ([hloop]); the stack discipline is proved about them. *)
 From Coq Require Import List Arith Bool ZArith.
 Import ListNotations.
-From RV Require Import Base.CRing Model.TreeTopo.
+From RV Require Import Base.CRing Gen.RootCover Model.TreeTopo.
 
 (* ------------------------------------------------------------------ column layout *)
 Section Layout.
@@ -173,6 +173,57 @@ Fixpoint den (t : tree) (bs : list bond) (j : nat) (s : key) : R :=
 (* the operator of the whole TTNO: the root tensor's parent bond has the single index 0 *)
 Definition ttno_coeff (tr : tree) (bs : list bond) (s : key) : R := den tr bs O s.
 
+(* ---------------------------------------------------------------- _decompose_qr, by witness *)
+(* The factors scipy returns are a witness: out-operator l = sum_i q[i,l] * (row key i), the new table
+   holds (l :: column key k) with factor r2[l,k] = r[l, argsort(p)[k]] for the entries kept.  The
+   witness is given sparsely, exactly as the implementation emits it; [qrows]/[qcols] list the row /
+   column keys it may mention (term_row / term_col).  Admissibility (Proofs: qr_valid) is the exact
+   factorisation  Gamma = q . r2  over the ring.                                                    *)
+Definition rentry := (nat * key * R)%type.
+Inductive swit :=
+| WG (w : wit)                                                      (* a vertex cover *)
+| WQ (qrows qcols : list key) (q : bond) (r : list rentry).         (* a factorisation *)
+Definition qr_table (r : list rentry) : table := map (fun e => (fst (fst e) :: snd (fst e), snd e)) r.
+Definition sstep (mk : nat * nat) (t : table) (sw : swit) : bond * table :=
+  match sw with
+  | WG w => step mk t w
+  | WQ _ _ q r => (q, map (fun x => (roll_left1 (fst x), snd x)) (qr_table r))
+  end.
+Definition swit0 : swit := WG ([], []).
+Fixpoint sloop (nodes : list (nat * nat)) (t : table) (sws : list swit) : list bond * table :=
+  match nodes with
+  | [] => ([], t)
+  | n :: ns =>
+      let r := sstep n t (hd swit0 sws) in
+      let r' := sloop ns (snd r) (tl sws) in
+      (fst r :: fst r', snd r')
+  end.
+Definition sconstruct (tr : tree) (t : table) (sws : list swit) : list bond * table := sloop (pmk tr) t sws.
+Fixpoint sloop_tables (nodes : list (nat * nat)) (t : table) (sws : list swit) : list table :=
+  match nodes with
+  | [] => []
+  | n :: ns => prep (fst n) t :: sloop_tables ns (snd (sstep n t (hd swit0 sws))) (tl sws)
+  end.
+(* the two matrices the factorisation identity is about, entry (rk, ck) *)
+Definition gamma_entry (w : nat) (t : table) (rk ck : key) : R :=
+  lsum t (fun x => if keqb (rkey w x) rk && keqb (ckey w x) ck then snd x else 0).
+Definition qr_entry (q : bond) (r : list rentry) (rk ck : key) : R :=
+  lsum r (fun e => if keqb (snd (fst e)) ck
+                   then snd e * lsum (nth (fst (fst e)) q []) (fun p => if keqb (fst p) rk then snd p else 0)
+                   else 0).
+
+(* every selected column keeps at least one row that is not selected itself: its complementary
+   operator is not empty (`out_op[0].qn` exists) *)
+Definition nonredb (w : nat) (t : table) (rsel csel : list key) : bool :=
+  forallb (fun c => existsb (fun x => keqb (ckey w x) c && negb (memb (rkey w x) rsel)) t) csel.
+Fixpoint nonred_run (nodes : list (nat * nat)) (t : table) (ws : list wit) : bool :=
+  match nodes with
+  | [] => true
+  | n :: ns =>
+      nonredb (rowwidth (fst n) (snd n)) (prep (fst n) t) (fst (hd ([], []) ws)) (snd (hd ([], []) ws))
+      && nonred_run ns (snd (step n t (hd ([], []) ws))) (tl ws)
+  end.
+
 (* ---------------------------------------------------------------- the chain (MPO) for comparison *)
 (* mps/symbolic_mpo.py: _construct_symbolic_mpo -- sentinel column 0 in front and behind, sites left
    to right, one incoming bond, k = 1; the new bond index stays in the first column (no rolling) *)
@@ -222,10 +273,88 @@ Arguments valid_run {R} nodes t ws.
 Arguments coeff {R} t s.
 Arguments den {R} t bs j s.
 Arguments ttno_coeff {R} tr bs s.
+Arguments sstep {R} mk t sw.
+Arguments sloop {R} nodes t sws.
+Arguments sconstruct {R} tr t sws.
+Arguments sloop_tables {R} nodes t sws.
+Arguments WG {R} w.
+Arguments nonred_run {R} nodes t ws.
 Arguments mloop {R} n t ws.
 Arguments mvalid_run {R} n t ws.
 Arguments mpo_table {R} t.
 Arguments mpo_coeff {R} bs s.
+
+
+(* ------------------------------------------------------------------ the cover at the root *)
+(* At the root every row has an empty column part: one unique column, n >= 1 unique rows, every row
+   adjacent to the column.  What _decompose_graph / bipartite_vertex_cover return there, in terms of
+   the GENERATED orientation rule (Gen/RootCover.v): without a free U vertex the Koenig loop never
+   runs, every U vertex is selected and no V vertex. *)
+Definition konig_no_free (nU nV : nat) (matchV : list (option nat)) : option (list bool * list bool) :=
+  if konig_loop_runs (konig_free_U nU matchV) then None
+  else Some (konig_result (konig_init nU) (konig_init nV)).
+Definition root_cover_bools (nrows : nat) (matchV : list (option nat)) : option (list bool * list bool) :=
+  let ru := rows_are_U (Z.of_nat nrows) 1%Z in
+  if ru then None            (* rows as U side: not what happens at a root with >= 1 rows *)
+  else option_map (fun uv => unpack_cover ru (fst uv) (snd uv)) (konig_no_free 1 nrows matchV).
+Fixpoint select {X : Type} (bs : list bool) (xs : list X) : list X :=
+  match bs, xs with
+  | b :: bs', x :: xs' => if b then x :: select bs' xs' else select bs' xs'
+  | _, _ => []
+  end.
+(* row_select / col_select as keys: term_row = rowkeys, term_col = [[]] *)
+Definition root_witness (rowkeys : list key) (matchV : list (option nat)) : option wit :=
+  option_map (fun rc => (select (fst rc) rowkeys, select (snd rc) [[]])) (root_cover_bools (length rowkeys) matchV).
+
+
+(* ------------------------------------------------------------------ bond labels (quantum numbers) *)
+(* one component of the quantum number: pq i = charge of primary operator i.  [lab t bs j] is the
+   label `_compute_qn` gives out-operator j of the subtree's root: the charge of its FIRST summand =
+   the labels of the addressed children bonds + the charges of the node's own primary operators. *)
+Section Charges.
+Variable R : CRing.
+Variable pq : nat -> Z.
+Definition chg (k : key) : Z := fold_right (fun i a => (pq i + a)%Z) 0%Z k.
+Definition lab_forest (L : tree -> list (bond R) -> nat -> Z) :=
+  fix go (cs : list tree) (bs : list (bond R)) (os : list nat) : Z :=
+    match cs, os with
+    | c :: cs', o :: os' => (L c (firstn (size c) bs) o + go cs' (skipn (size c) bs) os')%Z
+    | _, _ => 0%Z
+    end.
+Definition sym_charge (L : tree -> list (bond R) -> nat -> Z) (ch : list tree) (bs : list (bond R)) (sym : key) : Z :=
+  match ch with
+  | [] => chg (skipn 1 sym)
+  | _ => (lab_forest L ch (removelast bs) (firstn (length ch) sym) + chg (skipn (length ch) sym))%Z
+  end.
+Fixpoint lab (t : tree) (bs : list (bond R)) (j : nat) : Z :=
+  match t with
+  | Node k ch =>
+      match nth j (last bs []) [] with
+      | [] => 0%Z
+      | p :: _ => sym_charge lab ch bs (fst p)
+      end
+  end.
+Definition symchg (t : tree) (bs : list (bond R)) (sym : key) : Z := sym_charge lab (children t) bs sym.
+(* all labels of the subtree's bonds, post-order (= mpoqn, one component) *)
+Definition labs_forest (F : tree -> list (bond R) -> list (list Z)) :=
+  fix go (cs : list tree) (bs : list (bond R)) : list (list Z) :=
+    match cs with [] => [] | c :: cs' => F c (firstn (size c) bs) ++ go cs' (skipn (size c) bs) end.
+Fixpoint all_labs (t : tree) (bs : list (bond R)) : list (list Z) :=
+  match t with
+  | Node k ch => labs_forest all_labs ch (removelast bs) ++ [map (lab t bs) (seq 0 (length (last bs [])))]
+  end.
+(* are all summands of every out-operator of the subtree equally charged? (then `first` is immaterial) *)
+Definition cons_forest (P : tree -> list (bond R) -> bool) :=
+  fix go (cs : list tree) (bs : list (bond R)) : bool :=
+    match cs with [] => true | c :: cs' => P c (firstn (size c) bs) && go cs' (skipn (size c) bs) end.
+Fixpoint consistentb (t : tree) (bs : list (bond R)) : bool :=
+  match t with
+  | Node k ch =>
+      forallb (fun j => forallb (fun p => Z.eqb (symchg t bs (fst p)) (lab t bs j)) (nth j (last bs []) []))
+              (seq 0 (length (last bs [])))
+      && cons_forest consistentb ch (removelast bs)
+  end.
+End Charges.
 
 (* the shape of BasisTree.linear on n+1 basis sets *)
 Fixpoint chain_tree (n : nat) : tree := match n with O => Node 1 [] | S n' => Node 1 [chain_tree n'] end.
@@ -366,6 +495,15 @@ Definition run_header (tr : tree) : list Z :=
   b2z (hlogs_eqb (fst r) (expected 0 tr [])) :: flat_map enc_hlog (fst r) ++ enc_cols (snd r).
 Definition run_qn (qs : nat) (pqn : list qvec) (tr : tree) (firsts : list (list key)) : list Z :=
   enc_qns (qn_loop qs pqn (pmk tr) firsts []).
+(* layout of a run with factorisation witnesses (coefficients are not compared here) *)
+Definition run_stables (tr : tree) (t : table ZRing) (sws : list (swit ZRing)) : list Z :=
+  flat_map enc_table (sloop_tables (pmk tr) t sws) ++ enc_table (snd (sconstruct tr t sws)).
+(* bond labels, one component: consistency flag, no-redundant-column flag, then all labels *)
+Definition run_labels (pqc : list Z) (tr : tree) (t : table ZRing) (ws : list wit) : list Z :=
+  let pq := fun i => nth i pqc 0%Z in
+  let bs := fst (construct tr t ws) in
+  b2z (consistentb ZRing pq tr bs) :: b2z (nonred_run (pmk tr) t ws) ::
+  flat_map (fun b => Zn (length b) :: b) (all_labs ZRing pq tr bs).
 Definition run_coeff (tr : tree) (bs : list (bond ZRing)) (t : table ZRing) (strs : list key) : list Z :=
   flat_map (fun s => [ttno_coeff tr bs s; coeff t s]) strs.
 End Enc.
